@@ -181,7 +181,8 @@ func (set *TemplateSet) FromCache(filename string) (*Template, error) {
 
 	// Cache miss
 	if !has {
-		tpl, err := set.FromFile(cleanedFilename)
+		// every loader resolves the name as given, like FromFile does
+		tpl, err := set.FromFile(filename)
 		if err != nil {
 			return nil, err
 		}
